@@ -137,6 +137,24 @@ def check_return(ctx, contract, values, result, entry_marks, fdef, env):
     g = cl.fn(ns)
     ctx.oblige(g, cl.label, 'post', cl.props)
     ctx.assume(g)      # proved clauses may be used by the following ones
+  for path, fn in contract.binds.items():
+    parts = path.split('.')
+    obj = values[parts[0]]
+    for f in parts[1:-1]:
+      obj = ctx.get_field(obj, f)
+      if isinstance(obj, VOpt):
+        obj = obj.val
+    cur = ctx.get_field(obj, parts[-1])
+    want = unwrap(fn(ns))
+    if isinstance(cur, VOpt) and not isinstance(want, VOpt):
+      ctx.oblige(z3.Not(cur.none), 'binds %s: not None' % path, 'post',
+                 contract.props)
+      cur = cur.val
+    if isinstance(want, VObj):
+      same = z3.BoolVal(isinstance(cur, VObj) and cur.oid == want.oid)
+    else:
+      same = eq_term(cur, want)
+    ctx.oblige(same, 'binds %s' % path, 'post', contract.props)
   for exc, cl in contract.raises.items():
     ctx.oblige(z3.Not(symexec.to_term(cl.fn(ctx.entry_old_ns))),
                'returns-only-if-not(%s)' % cl.label, 'raises', cl.props)
